@@ -3,7 +3,7 @@ From Coq Require Import List NArith ZArith Arith Bool.
 Import ListNotations.
 From Chiri Require Import Base.Bytes Base.Res Model.Tokenizer Model.TreeParser Model.Markers Model.Clean
      Spec.Ranges Spec.Extents Spec.Rename Spec.Simulation Proofs.C04Proofs Proofs.C05Proofs Proofs.CollectProofs Proofs.CleanProofs
-     Proofs.RenameProofs Proofs.SimStrings Proofs.WellNested Proofs.DocMask Proofs.AstCollect Proofs.Idempotent Proofs.CliProofs Proofs.Compose Proofs.SimFlat Proofs.IdempotentUnwrap Proofs.ComposeUnwrap.
+     Proofs.RenameProofs Proofs.SimStrings Proofs.WellNested Proofs.DocMask Proofs.AstCollect Proofs.Idempotent Proofs.CliProofs Proofs.Compose Proofs.SimFlat Proofs.IdempotentUnwrap Proofs.ComposeUnwrap Proofs.ChainUnwrap.
 Local Open Scope Z_scope.
 
 (** The full statements (kept visible; NOT proved in full):
@@ -188,6 +188,31 @@ Theorem C19_composition_with_unwrap_blocks :
     nonws out12 = nonws out2.
 Proof. exact clean_composes_strict. Qed.
 Print Assumptions C19_composition_with_unwrap_blocks.
+
+(** Any number of steps with unwrap-block elements, and the tree form of "no tag is stranded"
+    (Proofs/ChainUnwrap.v: [strict2] is preserved by a run). *)
+Theorem C19_composition_chain_with_unwrap_blocks :
+  forall cs c ds de f outn out,
+    good_delims ds de -> de_nb de -> good_doc ds de (doc_of f) -> bodies_ok (doc_of f) ->
+    Forall ast_ok f -> strict2 f -> grows c cs ->
+    clean_chain (c :: cs) ds de (render ds de (doc_of f)) = Ok outn ->
+    clean (last cs c) ds de (render ds de (doc_of f)) = Ok out ->
+    nonws outn = nonws out.
+Proof. exact clean_chain_composes_strict. Qed.
+Print Assumptions C19_composition_chain_with_unwrap_blocks.
+
+Theorem C19_no_tag_is_stranded_with_unwrap_blocks :
+  forall cfg1 cfg2 ds de f out1 out12,
+    good_delims ds de -> de_nb de -> good_doc ds de (doc_of f) -> bodies_ok (doc_of f) ->
+    Forall ast_ok f -> strict2 f ->
+    (forall el, status cfg1 el = Some true -> status cfg2 el = Some true) ->
+    clean cfg1 ds de (render ds de (doc_of f)) = Ok out1 ->
+    clean cfg2 ds de out1 = Ok out12 ->
+    (exists f12, out12 = render ds de (doc_of f12) /\ Forall ast_ok f12 /\ settled cfg2 f12 /\
+       forall p, In p (ast_pairs f12) -> In p (ast_pairs f)) /\
+    clean cfg2 ds de out12 = Ok out12.
+Proof. exact clean_steps_not_stranded_strict. Qed.
+Print Assumptions C19_no_tag_is_stranded_with_unwrap_blocks.
 
 (** Known finding KF3 (known_findings.json), as a theorem about the faithful model: the hypothesis on
     the wrapper lines cannot be dropped.  "a\n<!tl to='2010-01-01 00:00:00' unwrap-block>\n\n<!tl
